@@ -250,7 +250,11 @@ def run(cx):
         cx.rule(r, t)
     akp = cx.cls(REL, "AkArgumentParser", "R19a")
     ins = cx.func(REL, "AkArgumentParser.register_dependent", "R19a")
-    init_multi = cx.func(REL, "ArgParser._init_multicmd_parser", "R19a")
+    init_multi_o = cx.func(REL, "ArgParser._init_multicmd_parser", "R19a")
+    from sa.inline import inlined as _inl
+    init_multi, _used_im = _inl(repo.modules[REL], init_multi_o, depth=3, exclude=("_mk_std_args",))
+    if _used_im:
+        cx.note(f"R19a: _init_multicmd_parser analysed with {_used_im} expanded in place")
     ak_add = cx.func(REL, "AkArgumentParser.add_argument", "R19b")
     ap_add = cx.func(REL, "ArgParser.add_argument", "R19b")
     parse_args = cx.func(REL, "ArgParser.parse_args", "R19e")
@@ -330,42 +334,174 @@ def run(cx):
     ploop = ploops[0]
     pvar = norm(ploop.target)
     parents_var = norm(ploop.iter)
-    direct, trans = [], []
-    for c in [c for c in ast.walk(ploop) if isinstance(c, ast.Call) and call_name(c) == ins.name]:
-        inner = [l for l in enclosing_loops(c) if l is not ploop and l is not cmd_loop]
-        (trans if inner else direct).append((c, inner))
-    ok = len(direct) >= 1
-    cx.ob("R19a", ploop, ok, "the new parser is registered in each declared parent" if ok else "the new parser is not registered in its declared parents", stmt="direct registration")
-    for c, _ in direct:
-        recv = c.func.value
-        src = norm(recv)
-        if isinstance(recv, ast.Name):
-            d = [v for _, v in assignments(init_multi, recv.id) if v is not None]
-            src = norm(d[0]) if len(d) == 1 else src
-        ok = src == f"self.command_parsers[{pvar}]" and [norm(a) for a in c.args] == [name_var, new_var]
-        cx.ob("R19a", c, ok, f"registers ({name_var}, {new_var}) in the parent's parser" if ok else f"direct registration is {src}.register_dependent({', '.join(norm(a) for a in c.args)})", stmt=norm(c) + " [direct]")
-    ok = len(trans) >= 1
-    cx.ob("R19a", ploop, ok, "the new parser is also registered in all ancestors (parsers that already have the parent as dependent)" if ok else
+    # Which parsers receive the new one?  Every call site's receiver is resolved to a union of terms
+    #     ("parent",)                      the parser of the declared parent  self.command_parsers[<pvar>]
+    #     ("all", frozenset(conditions))   every registered parser e for which the conditions hold  (e written <e>)
+    # whatever the spelling: nested loops, a list `[parent, *ancestors]`, a filtered comprehension, items() ...
+    from sa.guards import reaching_def, canon_fact
+
+    class _Und(Exception):
+        pass
+
+    def _elements(coll, at, depth=0):
+        """terms for the elements of collection expression `coll` evaluated at `at`"""
+        if depth > 6:
+            raise _Und("collection nesting")
+        t = norm(coll)
+        if t in ("self.command_parsers.values()", "list(self.command_parsers.values())"):
+            return [("all", frozenset())]
+        if isinstance(coll, ast.Name):
+            r = reaching_def(coll.id, at, calls=True, containers=True)
+            if r is None:
+                raise _Und(f"collection {coll.id}")
+            return _elements(r[0], r[1], depth + 1)
+        if isinstance(coll, (ast.List, ast.Tuple, ast.Set)):
+            out = []
+            for x in coll.elts:
+                if isinstance(x, ast.Starred):
+                    out += _elements(x.value, at, depth + 1)
+                else:
+                    out += _single(x, at, depth + 1)
+            return out
+        if isinstance(coll, (ast.ListComp, ast.SetComp, ast.GeneratorExp)) and len(coll.generators) == 1 and isinstance(coll.generators[0].target, ast.Name) \
+                and is_name(coll.elt, coll.generators[0].target.id):
+            g = coll.generators[0]
+            base = _elements(g.iter, at, depth + 1)
+            conds = set()
+            for i_ in g.ifs:
+                from sa.guards import split as _split
+                for e, pol in _split(i_, True):
+                    conds.add(_cond(e, pol, g.target.id))
+            return [(k[0], (k[1] | frozenset(conds))) if k[0] == "all" else k for k in base] if not conds or all(k[0] == "all" for k in base) else _raise(_Und("filter over a mixed collection"))
+        if isinstance(coll, ast.BinOp) and isinstance(coll.op, ast.Add):
+            return _elements(coll.left, at, depth + 1) + _elements(coll.right, at, depth + 1)
+        raise _Und(f"collection `{t[:50]}`")
+
+    def _raise(e):
+        raise e
+
+    def _cond(e, pol, var):
+        import re as _re
+        cf = canon_fact(e, pol)
+        return tuple(_re.sub(rf"\b{_re.escape(var)}\b", "<e>", x) if isinstance(x, str) else x for x in cf)
+
+    def _single(x, at, depth=0):
+        """terms for one parser-valued expression"""
+        if depth > 6:
+            raise _Und("alias nesting")
+        if norm(x) == f"self.command_parsers[{pvar}]":
+            return [("parent",)]
+        if isinstance(x, ast.Name):
+            # a loop variable?
+            for l in enclosing_loops(at):
+                tg = l.target
+                if isinstance(tg, ast.Tuple) and len(tg.elts) == 2 and is_name(tg.elts[1], x.id) and norm(l.iter) == "self.command_parsers.items()":
+                    base = [("all", frozenset())]
+                elif is_name(tg, x.id):
+                    base = _elements(l.iter, l)
+                else:
+                    continue
+                own_exits = [n_ for n_ in ast.walk(l) if isinstance(n_, (ast.Break, ast.Return)) and enclosing_loops(n_) and enclosing_loops(n_)[0] is l] + \
+                            [n_ for n_ in ast.walk(l) if isinstance(n_, ast.Return)]
+                if own_exits:
+                    skipped.append((l, own_exits[0]))
+                conds = {_cond(e, pol, x.id) for e, pol in facts(at, stop=l) if x.id in {n_.id for n_ in ast.walk(e) if isinstance(n_, ast.Name)}}
+                if conds and not all(k[0] == "all" for k in base):
+                    # conditions on a mixed collection: keep them only if they are the freshness guard (harmless for "parent")
+                    if conds - {("in", name_var, f"<e>.{container}", False)}:
+                        raise _Und("conditions on a mixed receiver collection")
+                    return base
+                return [(k[0], k[1] | frozenset(conds)) if k[0] == "all" else k for k in base]
+            r = reaching_def(x.id, at, calls=True)
+            if r is None:
+                raise _Und(f"receiver {x.id}")
+            return _single(r[0], r[1], depth + 1)
+        raise _Und(f"receiver `{norm(x)[:50]}`")
+    reg_calls = [c for c in ast.walk(ploop) if isinstance(c, ast.Call) and call_name(c) == ins.name]
+    terms = []
+    skipped = []
+    try:
+        for c in reg_calls:
+            cx.need(isinstance(c.func, ast.Attribute), "R19a", c, "register_dependent must be called on a parser")
+            ts = _single(c.func.value, c)
+            # conditions of the call site itself that do not mention the receiver variable (e.g. on the parent) are not modelled
+            terms.append((c, ts))
+    except _Und as e:
+        raise AnalysisError("R19a", f"{REL}::_init_multicmd_parser", f"receivers of register_dependent not resolved ({e})")
+    for l_, ex_ in skipped:
+        cx.ob("R19a", ex_, False, f"the scan over the registered parsers is left early (`{norm(ex_)}`): ancestors behind that point never receive the new parser "
+              "(a command reaching an ancestor through several parents, or parents declared in another order)", stmt="receiver scan exit")
+    dep_cond = ("in", pvar, f"<e>.{container}", True)
+    fresh = ("in", name_var, f"<e>.{container}", False)
+    all_terms = [t for _, ts in terms for t in ts]
+    has_parent = ("parent",) in all_terms
+    cx.ob("R19a", ploop, has_parent, "the new parser is registered in each declared parent" if has_parent else "the new parser is not registered in its declared parents", stmt="direct registration")
+    anc = [t for t in all_terms if t[0] == "all" and dep_cond in t[1]]
+    cx.ob("R19a", ploop, bool(anc), "the new parser is also registered in all ancestors (parsers that already have the parent as dependent)" if anc else
           "no registration in the ancestors of a parent: options of a grand-parent are not inherited", stmt="transitive registration")
-    for c, inner in trans:
-        l = inner[0]
-        over_all = norm(l.iter) in ("self.command_parsers.values()",) or (norm(l.iter) == "self.command_parsers.items()")
-        lv = norm(l.target) if not isinstance(l.target, ast.Tuple) else norm(l.target.elts[1])
-        recv_ok = norm(c.func.value) == lv
-        cond = any(isinstance(e, ast.Compare) and isinstance(e.ops[0], ast.In) and pol and norm(e.left) == pvar and norm(e.comparators[0]) == f"{lv}.{container}" for e, pol in facts(c))
-        ok = over_all and recv_ok and cond and [norm(a) for a in c.args] == [name_var, new_var]
-        cx.ob("R19a", c, ok, f"every earlier parser that has {pvar} as dependent gets ({name_var}, {new_var})" if ok else
-              f"ancestor registration is not `for parser in all earlier parsers: if {pvar} in parser.{container}: parser.register_dependent({name_var}, {new_var})`", stmt=norm(c) + " [transitive]")
+    for c, ts in terms:
+        ok_args = [norm(a) for a in c.args] == [name_var, new_var]
+        cx.ob("R19a", c, ok_args, f"registers ({name_var}, {new_var})" if ok_args else f"registration is {norm(c.func.value)}.register_dependent({', '.join(norm(a) for a in c.args)})", stmt=norm(c) + " [arguments]")
+        for t in ts:
+            if t[0] != "all":
+                continue
+            extra = t[1] - {dep_cond, fresh}
+            if dep_cond not in t[1]:
+                cx.ob("R19a", c, False, f"registers the new parser in every earlier parser with {sorted(map(str, t[1])) or 'no condition'}: not `{pvar} in parser.{container}` "
+                      f"(commands that do not name the parent's ancestors inherit / ancestors are missed)", stmt=norm(c) + " [receivers]")
+            elif extra:
+                raise AnalysisError("R19a", f"{REL}::_init_multicmd_parser", f"additional conditions on the ancestors: {sorted(map(str, extra))}")
+            else:
+                cx.ob("R19a", c, True, f"every earlier parser that has {pvar} as dependent gets ({name_var}, {new_var})", stmt=norm(c) + " [receivers]")
     # the new parser enters the registry after the parents loop (so it is never its own ancestor) and unconditionally
     rs = enclosing_stmt(reg_store[0])
     ok = parent(rs) is cmd_loop and cmd_loop.body.index(rs) > max(i for i, s in enumerate(cmd_loop.body) if ploop in list(ast.walk(s)))
     cx.ob("R19a", rs, ok, "the new parser is entered into the registry after its registration in all ancestors, for every command" if ok else
           "registry update is conditional or precedes the ancestor registration")
     # parents: all declared parents are iterated (set/list built from the split, no filtering besides empties)
-    pd = [v for _, v in assignments(init_multi, parents_var) if v is not None]
-    comp = [v for v in pd if isinstance(v, (ast.SetComp, ast.ListComp))]
-    ok = len(comp) == 1 and "split(',')" in norm(comp[0]) and all(len(g.ifs) <= 1 for g in comp[0].generators)
-    cx.ob("R19a", comp[0] if comp else ploop, ok, "every comma-separated parent name is used" if ok else "the set of parents is not the full comma-separated list", stmt="parents set")
+    # Found by its source: the one iteration over `<text>.split(',')` in the (expanded) function - a comprehension or a loop
+    # that adds to a set.  The only filter allowed is "the stripped piece is not empty".
+    def _is_split(e):
+        return isinstance(e, ast.Call) and call_name(e) == "split" and len(e.args) >= 1 and const(e.args[0], str) and e.args[0].value == ","
+    gens = [(g, c_) for c_ in walk_local(init_multi) if isinstance(c_, (ast.SetComp, ast.ListComp, ast.GeneratorExp)) for g in c_.generators if _is_split(g.iter)]
+    loops_ = [l for l in walk_local(init_multi) if isinstance(l, ast.For) and _is_split(l.iter)]
+    cx.need(len(gens) + len(loops_) == 1, "R19a", init_multi, f"one iteration over the comma-separated parents expected ({len(gens)} comprehension(s), {len(loops_)} loop(s))")
+
+    def _piece_truth(e, piece):
+        """is `e` a truthiness test of the (stripped) piece?"""
+        if isinstance(e, ast.NamedExpr):
+            e = e.value
+        t = norm(e)
+        return t in (piece, f"{piece}.strip()") or t in strip_names
+    strip_names = set()
+    if gens:
+        g, comp_ = gens[0]
+        piece = norm(g.target)
+        for n_ in ast.walk(comp_):
+            if isinstance(n_, ast.NamedExpr) and norm(n_.value) == f"{piece}.strip()":
+                strip_names.add(n_.target.id)
+        filt = list(g.ifs)
+        elt_ok = norm(comp_.elt) in strip_names | {piece, f"{piece}.strip()"}
+        other = [f for f in filt if not _piece_truth(f, piece)]
+        site = comp_
+    else:
+        l = loops_[0]
+        piece = norm(l.target)
+        for st_ in ast.walk(l):
+            if isinstance(st_, ast.Assign) and len(st_.targets) == 1 and isinstance(st_.targets[0], ast.Name) and norm(st_.value) == f"{piece}.strip()":
+                strip_names.add(st_.targets[0].id)
+        adds = [c_ for c_ in ast.walk(l) if isinstance(c_, ast.Call) and call_name(c_) in ("add", "append") and len(c_.args) == 1]
+        cx.need(len(adds) == 1, "R19a", l, "one add of the parent name per piece expected")
+        elt_ok = norm(adds[0].args[0]) in strip_names | {piece, f"{piece}.strip()"}
+        other = [e for e, pol in facts(adds[0], stop=l) if not (_piece_truth(e, piece) and pol)]
+        if any(isinstance(x, (ast.Break, ast.Continue, ast.Return)) for x in ast.walk(l)):
+            other.append(ast.Constant(value="loop exit"))
+        site = l
+    ok = elt_ok and not other
+    if not ok and other and all(isinstance(o, ast.AST) and not isinstance(o, ast.Constant) for o in other) and elt_ok and len(other) == 1 and not any(
+            isinstance(x, (ast.Compare,)) for x in ast.walk(other[0])):
+        raise AnalysisError("R19a", f"{REL}::_init_multicmd_parser", f"filter on the parents `{norm(other[0])}` not recognised")
+    cx.ob("R19a", site, ok, "every comma-separated parent name is used" if ok else "the set of parents is not the full comma-separated list", stmt="parents set")
 
     # ---------------------------------------------------------------- R19d
     lookups = [n for n in ast.walk(cmd_loop) if isinstance(n, ast.Subscript) and isinstance(n.ctx, ast.Load) and is_self_attr(n.value, "command_parsers")]
